@@ -106,6 +106,8 @@ class Engine:
             ok = ("Error:" not in out) and ("traces generated" in out)
             m = re.search(r"The number of states generated: (\d+)", out)
             m = re.match(r"(\d+)(\d*)", (m.group(1) + " ") if m else "") and re.search(r"(\d+) states checked, (\d+) traces", out)
+        if mc.get("expect_violation_text"):
+            ok = mc["expect_violation_text"] in out
         if mc.get("expect_violation"):
             # a design variant that must NOT satisfy the invariant: shows the invariant is not vacuous
             ok = ("Invariant %s is violated" % mc["expect_violation"]) in out
@@ -116,7 +118,7 @@ class Engine:
         st = {"name": mc["name"], "spec": mc["tla"], "cfg": cfg, "ok": ok,
               "states_generated": int(m.group(1)) if m else 0, "distinct_states": (0 if sim else int(m.group(2))) if m else 0,
               "simulated_traces": int(m.group(2)) if (m and sim) else 0,
-              "expected_violation": mc.get("expect_violation"), "actions_taken": acts, "never_taken": [a for a, c in acts.items() if c == 0],
+              "expected_violation": mc.get("expect_violation") or mc.get("expect_violation_text"), "actions_taken": acts, "never_taken": [a for a, c in acts.items() if c == 0],
               "replay_rows": len(replay_lines), "wall_s": round(time.time() - t, 1)}
         self.mc_stats.append(st)
         if not ok:
@@ -304,6 +306,13 @@ class Engine:
         self.scan_traces(outdir)
         before = len(self.viol)
         self.validate_all(fam["trace"], outdir)
+        if fam.get("also_counts"):
+            # guards of another property that this property's statement covers as well (e.g. the address dialled)
+            for v in list(self.viol[before:]):
+                if v["guard"] in fam["also_counts"] and v["property"] != self.pid:
+                    w = dict(v)
+                    w["property"] = self.pid
+                    self.viol.append(w)
         if fam.get("attribute_all"):
             # scenarios built for this property only: any failed guard on them is this property's failure
             for v in self.viol[before:]:
